@@ -1,4 +1,5 @@
 //! hx_c36: namespace catalog behaves as a hierarchical map (C36).
+mod filt;
 mod ops;
 mod probe;
 
@@ -6,6 +7,7 @@ fn main() {
     let (sub, args) = hxlib::util::Args::parse();
     let code = match sub.as_str() {
         "probe" => probe::run(&args),
+        "explore" => filt::explore(&args),
         _ => {
             eprintln!("unknown subcommand {sub}");
             2
